@@ -3,8 +3,8 @@ SPEC = {
     'engine': 'send', 'harness': 'send.cpp',
     'repo_srcs': ['N2kMsg.cpp', 'N2kStream.cpp', 'N2kMessages.cpp', 'N2kTimer.cpp', 'N2kGroupFunction.cpp', 'N2kGroupFunctionDefaultHandlers.cpp', 'NMEA2000.cpp'],
     'variants': ['', 't32'],
-    'lean_modules': ['N2k.Props.C04'], 'props_files': ['N2k/Props/C04.lean'],
-    'translators': ['pgn_tables'],
+    'lean_modules': ['N2k.Props.Consts.C04', 'N2k.Props.C04'], 'props_files': ['N2k/Props/Consts/C04.lean', 'N2k/Props/C04.lean'],
+    'translators': ['constants', 'pgn_tables'],
     'case_start': ['reset', 'reset0'],
     'trusted_base': ["model N2k/Model/Send.lean: Open() state machine (openStep), SendMsg gate (gate), IsAddressClaimStarted, "
                      "StartAddressClaim, tN2kScheduler in both the 32-bit and the 64-bit flavour (Basic/Time.lean), transcribed by hand",
